@@ -245,13 +245,17 @@ def c07(tier, seed):
         units = cfg_shards("seeks", "rstates", NR, seed, dict(paths=RP, ops="c07", full=1, images=3))
     units += shards("hist", "hist", 6 if q else 24, seed + 3, dict(histories=5 if q else 20, len=40))
     units += code_units("offsets", tier, seed + 3, 8, 30)
+    # positions after look-aheads that fail or run past the data: every code placed j bits before the end
+    units += cfg_shards("crossing", "crossing", 14, seed + 1, dict())
     return dict(
         needs_gen=True,
         mc=[m for m in reader_mcs(tier)],
         rule="from every fill state, seek to every target (all p for short streams, word boundaries +-1 and a "
              "stride otherwise) followed by a continuation, on every seekable configuration (memory readers, "
              "writers read back, Cursor and BufReader<Cursor> through the byte adapter, unbuffered); the "
-             "position reported after every call of every schedule is compared by TLC with the abstract position. "
+             "position reported after every call of every schedule is compared by TLC with the abstract position; "
+             "codes placed so that they start j bits before the end of the data for every j, with every table "
+             "option (positions after look-aheads that fail or run past the end). "
              "distinct = (configuration, fill level, operation kind).",
         units=units,
     )
